@@ -75,6 +75,9 @@ func rcBuild(c rcacheCase, cached bool) *rcTwin {
 	if cached {
 		opts = append(opts, cachingOpts(c.Cap)...)
 	}
+	if strings.HasPrefix(c.Table, "encoded") {
+		opts = append(opts, rux.UseEncodedPath)
+	}
 	// the model takes request paths literally, which is what a StrictLastSlash router does; without trailing slashes in
 	// the table and the history both modes agree, so they alternate
 	strict := strings.HasPrefix(c.Table, "strict")
@@ -116,8 +119,15 @@ func rcBuild(c rcacheCase, cached bool) *rcTwin {
 	return t
 }
 
+// rcEncoded: the routers of the current case use UseEncodedPath (the model's path is the ESCAPED path of the URL)
+var rcEncoded bool
+
 func rcServe(r *rux.Router, m, path string) (code int, body, allow string, pan any) {
-	req := &http.Request{Method: m, URL: &url.URL{Path: path}, Header: http.Header{}, Proto: "HTTP/1.1"}
+	u := &url.URL{Path: path}
+	if dec, err := url.PathUnescape(path); rcEncoded && err == nil && dec != path {
+		u = &url.URL{Path: dec, RawPath: path} // what a client that sent the escaped spelling produces (EscapedPath() == path)
+	}
+	req := &http.Request{Method: m, URL: u, Header: http.Header{}, Proto: "HTTP/1.1"}
 	w := httptest.NewRecorder()
 	func() {
 		defer func() { pan = recover() }()
@@ -145,6 +155,7 @@ func rcacheReplay(s *Summary, raw json.RawMessage) {
 		fatal("bad rcache case: %v", err)
 	}
 	s.sample(c)
+	rcEncoded = strings.HasPrefix(c.Table, "encoded")
 	c.nmw = []int{3, 0, 5, 1}[atomic.AddInt64(&rcacheCaseNo, 1)%4]
 	cached, plain := rcBuild(c, true), rcBuild(c, false)
 	cache := cached.r.VerifCache()
